@@ -1,12 +1,17 @@
 pub mod kv;
 pub mod c01;
 pub mod c02;
+pub mod c02_ilv;
+pub mod c03;
+pub mod conc;
 pub mod c06;
 pub mod c08;
 pub mod c09;
 pub mod c10;
 pub mod c12;
 pub mod c15;
+pub mod c17;
+pub mod c19;
 pub mod lines;
 
 use crate::report::{Run, Violation};
@@ -49,12 +54,15 @@ pub fn dispatch(run: &mut Run) -> bool {
     match run.property.as_str() {
         "C01" => c01::run(run),
         "C02" => c02::run(run),
+        "C03" => c03::run(run),
         "C06" => c06::run(run),
         "C08" => c08::run(run),
         "C09" => c09::run(run),
         "C10" => c10::run(run),
         "C12" => c12::run(run),
         "C15" => c15::run(run),
+        "C17" => c17::run(run),
+        "C19" => c19::run(run),
         _ => return false,
     }
     true
